@@ -314,6 +314,8 @@ class Frame:
         self.this = this
         self.vars = {}
         self.pending_returns = []  # (Cond, value): returns taken under a data-dependent condition
+        self.locals = []  # cells of local objects with tracked lifetime (destroyed at function exit)
+        self.temps = []   # cells of temporaries with tracked lifetime (destroyed at the end of the full-expression)
 
 
 class Hooks:
@@ -351,6 +353,13 @@ class Hooks:
 
     def assume(self, it, cond, node):
         """called when one arm of a symbolic branch diverges (throws): the other arm continues under cond"""
+        pass
+
+    def tracked_record(self, rec):
+        """records whose object lifetimes (destructor calls for locals and temporaries) are modelled"""
+        return False
+
+    def on_ctor_abort(self, it, cell, fdecl):
         pass
 
 
@@ -391,6 +400,10 @@ class Interp:
         self.hooks.on_read(self, cell, node)
         v = cell.value
         if v is UNDEF:
+            if hasattr(self.hooks, 'on_undef_read'):
+                r = self.hooks.on_undef_read(self, cell, node)
+                if r is not NotImplemented:
+                    return r
             raise Unsupported('read of undefined storage %s at %s' % (cell.where(), self.loc(node) if node else '?'))
         return v
 
@@ -430,6 +443,9 @@ class Interp:
                 fr.vars[p['id']] = Cell(self.copy_value(a) if isinstance(a, Obj) else a, None, 0, p.get('name'))
         self.frames.append(fr)
         self.trace_calls.append(fdecl['name'])
+        saved_unit = self.unit
+        if fdecl.get('_unit') is not None:
+            self.unit = fdecl['_unit']
         try:
             if fdecl.get('ctor'):
                 self.run_ctor_inits(fdecl, this_cell)
@@ -441,9 +457,59 @@ class Interp:
                 result = r.value
             for cond, val in reversed(fr.pending_returns):
                 result = ITE(cond, val, result)
+            self.unwind(fr, result)
             return result
+        except Thrown:
+            self.unwind(fr, None)
+            if fdecl.get('ctor') and this_cell is not None:
+                self.hooks.on_ctor_abort(self, this_cell, fdecl)
+            raise
         finally:
             self.frames.pop()
+            self.unit = saved_unit
+
+    # ------------------------------------------------------------------ object lifetimes
+    def track(self, cell, kind):
+        v = cell.value
+        if isinstance(v, Obj) and self.hooks.tracked_record(v.rec) and self.frames:
+            (self.frame.locals if kind == 'local' else self.frame.temps).append(cell)
+
+    def destroy(self, cell):
+        v = cell.value
+        if not isinstance(v, Obj) or getattr(cell, '_dead', False):
+            return
+        if v.tag == '<destroyed>':
+            return
+        dname = v.rec + '::~' + v.rec.split('::')[-1]
+        dtors = self.unit.by_name.get(dname, [])
+        if not dtors and getattr(self.unit, 'db', None) is not None:
+            f = self.unit.db.link(dname, '')
+            dtors = [f] if f else []
+        if dtors:
+            self.call(dtors[0], cell, [])
+        v.tag = '<destroyed>'
+
+    def _same_obj(self, cell, keep):
+        if keep is None:
+            return False
+        if isinstance(keep, Cell):
+            keep = keep.value
+        return cell.value is keep
+
+    def end_full_expression(self, fr, mark, keep=None):
+        temps = fr.temps[mark:]
+        del fr.temps[mark:]
+        for c in reversed(temps):
+            if not self._same_obj(c, keep):
+                self.destroy(c)
+
+    def unwind(self, fr, result):
+        self.end_full_expression(fr, 0, result)
+        locs = fr.locals
+        fr.locals = []
+        for c in reversed(locs):
+            if not self._same_obj(c, result):
+                self.destroy(c)
 
     def run_ctor_inits(self, fdecl, this_cell):
         obj = this_cell.value
@@ -519,8 +585,7 @@ class Interp:
 
     def construct_into(self, cell, e, as_base=False):
         """evaluate CXXConstructExpr e constructing into cell"""
-        cid = e.get('calleeId')
-        fdecl = self.unit.by_id.get(cid)
+        fdecl = self.resolve(e)
         rec = e.get('record')
         if not as_base:
             cell.value = Obj(rec, None, cell.name)
@@ -570,6 +635,17 @@ class Interp:
             raise Unsupported('argument count mismatch for %s' % fdecl['name'])
         return vals
 
+    def resolve(self, node):
+        cid = node.get('calleeId')
+        if not cid:
+            return None
+        f = self.unit.by_id.get(cid)
+        if f is None and node.get('callee') and 'csig' in node:
+            db = getattr(self.unit, 'db', None)
+            if db is not None:
+                f = db.link(node['callee'], node['csig'])
+        return f
+
     def do_call(self, node):
         k = node['k']
         fn = node.get('fn')
@@ -577,7 +653,7 @@ class Interp:
         cid = node.get('calleeId')
         name = node.get('callee')
         this_cell = None
-        fdecl = self.unit.by_id.get(cid) if cid else None
+        fdecl = self.resolve(node)
         if k == 'CXXMemberCallExpr':
             me = self._strip_parens(fn)
             if me['k'] != 'MemberExpr':
@@ -611,11 +687,23 @@ class Interp:
                 f = self.read(this_cell)
                 return self.call_lambda(f, args, node)
             argvals = self.eval_args(fdecl, args)
-            return self.call(fdecl, this_cell, argvals, node)
+            r = self.call(fdecl, this_cell, argvals, node)
+            if isinstance(r, Obj) and self.hooks.tracked_record(r.rec):
+                self.track(Cell(r, None, 0, 'tmp'), 'temp')
+            return r
         if k == 'CXXOperatorCallExpr' and node.get('oop') == '()' and fdecl is None and this_cell is not None:
             f = this_cell.value
             if isinstance(f, FuncRef) and f.lam is not None:
                 return self.call_lambda(f, args, node)
+        if k == 'CXXOperatorCallExpr' and node.get('oop') == '=' and fdecl is None and this_cell is not None \
+                and isinstance(this_cell.value, Obj) and len(args) == 1 and name.endswith('::operator='):
+            # implicitly defined copy/move assignment: member-wise
+            src = self.lval(args[0]).value
+            if isinstance(src, Obj) and src.rec.split('<')[0] == this_cell.value.rec.split('<')[0]:
+                cp = self.copy_value(src)
+                for fk, fc in cp.fields.items():
+                    self.write(this_cell.value.field(fk), fc.value, node)
+                return this_cell
         # external
         bname = name.split('<')[0]
         fnname = MATH_FUNCS.get(bname)
@@ -646,7 +734,8 @@ class Interp:
         if name == '__builtin_assume' or name == '__builtin_unreachable' or name == '__builtin_expect':
             return None
         if name == '__builtin_assume_aligned':
-            return self.eval(args[0])
+            r = self.hooks.external_call(self, name, node, args, this_cell)
+            return self.eval(args[0]) if r is NotImplemented else r
         r = self.hooks.external_call(self, name, node, args, this_cell)
         if r is NotImplemented:
             raise Unsupported('call to external function %s at %s' % (name, self.loc(node)))
@@ -1289,6 +1378,7 @@ class Interp:
     def e_CXXConstructExpr(self, n):
         c = Cell(UNDEF, None, 0, 'tmp')
         self.construct_into(c, n)
+        self.track(c, 'temp')
         return c.value
 
     e_CXXTemporaryObjectExpr = e_CXXConstructExpr
@@ -1356,6 +1446,24 @@ class Interp:
             for c in n.get('c', []):
                 self.exec(c)
             return
+        fr = self.frame
+        mark = len(fr.temps)
+        if mark == 0 and not fr.locals and not self.hooks.tracked_record:
+            return self.exec1(n, k)
+        try:
+            self.exec1(n, k)
+        except _Return as r:
+            self.end_full_expression(fr, mark, r.value)
+            raise
+        except (_Break, _Continue):
+            self.end_full_expression(fr, mark)
+            raise
+        except Thrown:
+            self.end_full_expression(fr, mark)
+            raise
+        self.end_full_expression(fr, mark)
+
+    def exec1(self, n, k):
         if k == 'DeclStmt':
             for d in n['decls']:
                 if d['k'] == 'VarDecl':
@@ -1477,6 +1585,7 @@ class Interp:
             self.construct_into(cell, init)
             if isinstance(cell.value, Obj):
                 cell.value.tag = d.get('name')
+            self.track(cell, 'local')
             return
         inner = init
         while inner['k'] in ('ExprWithCleanups', 'CXXBindTemporaryExpr') and len(inner.get('c', [])) == 1:
@@ -1485,6 +1594,7 @@ class Interp:
             self.construct_into(cell, inner)
             if isinstance(cell.value, Obj):
                 cell.value.tag = d.get('name')
+            self.track(cell, 'local')
             return
         v = self.eval(init)
         if isinstance(v, Cell):
